@@ -9,14 +9,15 @@ SEEDED = os.path.join(ROOT, "seeded")
 
 def do_import():
     for d in sorted(os.listdir("/tmp/mut")):
-        if not d.endswith("-out"):
+        if not (d.endswith("-out") or d.endswith("-out2")):
             continue
-        pid = d[:-4]
+        rnd2 = d.endswith("-out2")
+        pid = d.split("-out")[0]
         for k in (1, 2):
             src = f"/tmp/mut/{d}"
             if not os.path.exists(f"{src}/patch{k}.diff"):
                 continue
-            dst = os.path.join(SEEDED, f"{pid}-{k}")
+            dst = os.path.join(SEEDED, f"{pid}-{k + 2 if rnd2 else k}")
             os.makedirs(dst, exist_ok=True)
             shutil.copy(f"{src}/patch{k}.diff", f"{dst}/patch.diff")
             if os.path.isdir(f"{dst}/demo"):
